@@ -37,7 +37,7 @@ class Prop(PropBase):
                                                 "C08_last_column_is_terminal_dependent", "recordTrue_of_agree")] + \
                ["Tpp.agree_step", "Tpp.agree_run"]
     LEAN_MODULES = ["Tpp.Props.C08"]
-    RULE = ("exhaustive: all (from,to) cursor pairs on 4x3 (quick) and 5x5 (thorough) grids after each of {unknown, known, "
+    RULE = ("exhaustive short histories: EVERY sequence of up to 3 (thorough: 4) operations over an 18-operation alphabet on a 3x2 terminal (termgen.short_histories); exhaustive: all (from,to) cursor pairs on 4x3 (quick) and 5x5 (thorough) grids after each of {unknown, known, "
             "wrote-last-column, restored, resized-with-saved-position, written}; random histories of every built-in "
             "manipulator, writes and size changes with edge-biased positions; the state record is read through a "
             "user-supplied manipulator after EVERY operation and compared with Ref.VT (3 wrap modes x 3 erase modes x "
@@ -56,4 +56,7 @@ class Prop(PropBase):
             nops = rng.choice([2, 3, 5, 8, 13, 21, 34, 60]) if tier == "quick" else rng.choice([3, 8, 21, 60, 150, 400])
             line = tg.history(rng, nops, sized=True, ops_weights=CURSOR_WEIGHTS)
             cs.append(Case(line, tag="history", nontrivial=line.count(";") > 2, cfgs=tg.configs(rng, 3)))
+        shc = ["%d %d %d %d 7 4" % (wv, e, r, z) for wv in range(3) for e in range(3) for r in range(6) for z in range(4)]
+        for line, cf in tg.short_histories(3 if tier == "quick" else 4, shc):
+            cs.append(Case(line, sweep="short-histories", cfgs=cf))
         return cs
